@@ -17,7 +17,7 @@ RES = sys.argv[2] if len(sys.argv) > 2 else "/tmp/seedwt/results"
 # change and exited 0 (or 3) before the addition; for the others the addition was made on reading the change's description,
 # before the first run against it.
 OBSERVED_MISS = {"C03_b", "C04_a", "C05_a", "C07_b", "C09_a", "C09_b", "C11_a", "C11_b", "C12_b", "C14_a", "C16_b", "C18_a",
-                 "C04_c", "C06_c"}
+                 "C04_c", "C06_c", "C14_d", "C19_d"}
 STRENGTHENED = {
     "C03_b": "C03 quick tier gained a triclinic configuration; the np.linalg.solve facade was missing (harness error before)",
     "C04_a": "C04: two-frame configurations for every species count (ternary and up were single-frame)",
@@ -46,6 +46,13 @@ STRENGTHENED = {
     "C13_c": "C13: machine-integer capacity side query (casts taken from the AST, z3 decides whether N-1 counts fit, dense-cluster replay)",
     "C16_c": "C16: rank-2 (non-symmetric tensor) property in the blurring harness",
     "C17_c": "C17: nematic tensor asked again from the same object after the neighbour file was regenerated under the same name",
+    # third round
+    "C08_d": "C08: dispatcher evaluated exactly at the poles (closed polar angle, every azimuth)",
+    "C14_d": "np.einsum facade was missing (harness error before); now decided by C14's tensor / uneven configurations",
+    "C18_d": "C18: Dynamics.sq4 asked twice with different wave-number ranges on one object, compared with a fresh object",
+    "C19_d": "C19: structural harness for read_lammpslog (row counts per section are integer symbols forked by the engine) - "
+             "the log reader was outside the claim before",
+    "C02_d": "np.allclose / np.isclose facade by documented semantics (added while this change was running; not needed for the verdict)",
 }
 
 
